@@ -420,6 +420,23 @@ def block_cases(rng, n, seed, indices, thorough):
             j = rng.choice([i for i in range(n) if i != idx])
             if leaves[j] != leaves[idx]:
                 yield mk('mut:other-tx', 'reject', {'tx': j}, raw=raws[j].hex())
+        # --- a byte of the root stored in the header (the comparison must cover all 32 bytes) ---
+        for j in (range(32) if thorough and idx in (0, n - 1) else [rng.randrange(32), rng.choice([0, 31])]):
+            mask = rng.choice([1, 2, 4, 8, 16, 32, 64, 128, rng.randrange(1, 256)])
+            roots2 = list(roots)
+            roots2[at] = root[:j] + bytes([root[j] ^ mask]) + root[j + 1:]
+            yield mk('mut:header-root-byte', 'reject', {'byte': j, 'xor': mask}, roots=[r.hex() for r in roots2])
+        # every byte of every sibling and of the transaction hash region for the first and last index
+        if thorough and idx in (0, n - 1) and n <= 16:
+            for k in range(L):
+                for j in range(32):
+                    b2 = list(branch)
+                    b2[k] = b2[k][:j] + bytes([b2[k][j] ^ (1 << rng.randrange(8))]) + b2[k][j + 1:]
+                    yield mk('mut:branch-elem', 'reject', {'level': k, 'byte': j},
+                             arg={'merkle': text_elems(b2), 'pos': idx})
+            for j in range(len(raws[idx])):
+                r2 = raws[idx][:j] + bytes([raws[idx][j] ^ (1 << rng.randrange(8))]) + raws[idx][j + 1:]
+                yield mk('mut:tx-byte', 'reject', {'byte': j}, raw=r2.hex())
         # --- the height ---
         hs = {0, -1, at - 1, at + 1, size - 1, size, size + 1, rng.randrange(-5, size + 5), 2 ** 31, -2 ** 40}
         hs.discard(at)
@@ -824,6 +841,7 @@ def main(run):
         '65..2100 transactions. Per (n, idx): the genuine proof, one byte flip in each branch element, a swap, each '
         'position bit below the branch length (duplicated-last-node levels expected to stay accepted), one bit above, '
         'another index, branch length +1/-1 at both ends, a byte of the transaction, another transaction of the block, '
+        'a byte of the root stored in the header (byte 0 or 31 and a random one), '
         'heights {0,-1,h-1,h+1,len-1,len,len+1,2^31,-2^40,random}. Boundary heights 1 and len-1; same root under two '
         'heights. Malformed stream: missing keys, falsy dict (network fetch), undecodable / upper-case / bytes / '
         'over- and under-long siblings, negative and 2^64-scale positions, re-verification of an already verified tx. '
